@@ -146,6 +146,10 @@ func NewDidComm(wallet *Wallet, ctx combinedDidCommWalletProvider) (*DidComm, er
 // 		- error if operation false.
 //
 func (c *DidComm) Connect(authToken string, invitation *outofband.Invitation, options ...ConnectOptions) (string, error) { //nolint: lll
+	if err := c.wallet.checkSession(authToken); err != nil {
+		return "", err
+	}
+
 	statusCh := make(chan service.StateMsg, msgEventBufferSize)
 
 	err := c.didexchangeClient.RegisterMsgEvent(statusCh)
@@ -202,6 +206,10 @@ func (c *DidComm) Connect(authToken string, invitation *outofband.Invitation, op
 // 		- error if operation fails.
 //
 func (c *DidComm) ProposePresentation(authToken string, invitation *GenericInvitation, options ...InitiateInteractionOption) (*service.DIDCommMsgMap, error) { //nolint: lll
+	if err := c.wallet.checkSession(authToken); err != nil {
+		return nil, err
+	}
+
 	opts := &initiateInteractionOpts{}
 	for _, opt := range options {
 		opt(opts)
@@ -270,6 +278,10 @@ func (c *DidComm) ProposePresentation(authToken string, invitation *GenericInvit
 // 		- error if operation fails.
 //
 func (c *DidComm) PresentProof(authToken, thID string, options ...ConcludeInteractionOptions) (*CredentialInteractionStatus, error) { //nolint: lll
+	if err := c.wallet.checkSession(authToken); err != nil {
+		return nil, err
+	}
+
 	opts := &concludeInteractionOpts{}
 
 	for _, option := range options {
@@ -336,6 +348,10 @@ func (c *DidComm) PresentProof(authToken, thID string, options ...ConcludeIntera
 // 		- error if operation fails.
 //
 func (c *DidComm) ProposeCredential(authToken string, invitation *GenericInvitation, options ...InitiateInteractionOption) (*service.DIDCommMsgMap, error) { //nolint: lll
+	if err := c.wallet.checkSession(authToken); err != nil {
+		return nil, err
+	}
+
 	opts := &initiateInteractionOpts{}
 	for _, opt := range options {
 		opt(opts)
@@ -408,6 +424,10 @@ func (c *DidComm) ProposeCredential(authToken string, invitation *GenericInvitat
 // 		- error if operation fails.
 //
 func (c *DidComm) RequestCredential(authToken, thID string, options ...ConcludeInteractionOptions) (*CredentialInteractionStatus, error) { //nolint: lll
+	if err := c.wallet.checkSession(authToken); err != nil {
+		return nil, err
+	}
+
 	opts := &concludeInteractionOpts{}
 
 	for _, option := range options {
